@@ -531,9 +531,12 @@ class C12(Monitor):
         """Is the point excluded by the region list as it stands - through the real isPointExcluded while exclusion is enabled,
         through the real containsPoint of the listed regions while an @-command has it switched off (the list is what the
         property protects; it takes effect again with the next enable)."""
-        if p.state.isExclusionEnabled():
-            return bool(p.state.isPointExcluded(x, y))
-        return any(r.containsPoint(x, y) for r in p.state.excludedRegions)
+        try:
+            if p.state.isExclusionEnabled():
+                return bool(p.state.isPointExcluded(x, y))
+            return any(r.containsPoint(x, y) for r in p.state.excludedRegions)
+        except Exception:  # noqa: B902
+            return False        # a membership test that raises excludes nothing (the filter's hook would fail the same way)
 
     @staticmethod
     def shapes_of(regions):
